@@ -1,15 +1,86 @@
 (* C31 — an acknowledged origin upload reaches the backend before local deletion.
-   Statements only; every proof is `exact <lemma>`.  Model: K.Model.C31. *)
+   Statements only; every proof is `exact <lemma>`.  Model: K.Model.C31 (uploads incl. the conflict
+   path, write-back executions, forced cleanup (maybeDelete), deletion attempts of the periodic
+   cleanup / LRU eviction / DELETE, crash+restart; one atomic step = one store / metadata /
+   backend / task-table call; `run fx init ops` ranges over every finite interleaving).
+   fx = false is the code at HEAD; fx = true is the same code with the map look-up of
+   lib/store/base/file_op.go lockHelper repaired (see notes/C31.md). *)
 From Coq Require Import List NArith Bool.
 From K.Model Require Import C31.
-From K.Proof Require Import C31_wit.
+From K.Proof Require Import C31_wit C31.
 Import ListNotations.
 Local Open Scope N_scope.
 
+(* SAFETY, PARTIAL.  For every history that respects the three conditions of Model.C31.guard
+   ((1) one namespace per digest, (2) forced cleanup of d isolated from uploads of d between its
+   Find and its deletion of the persist flag, (3) at HEAD only: no deletion attempt on d between an
+   executor's map look-up and its entry lock), in the reached state every acknowledged upload is in
+   its backend, or its local copy is present and its write-back row is stored.  No bound on the
+   history; all deletion paths (cleanup pass, LRU eviction, DELETE, forced cleanup, conflict
+   handling), backend outages and restarts are steps of the history.
+   MISSING for the full statement: exactly the three conditions; each is necessary (below). *)
+Theorem C31_safety_partial : forall (nsof : N -> N) (fx : bool) (ops : list op),
+  nice nsof fx init ops = true -> safe_state (fst (run fx init ops)) = true.
+Proof. exact safety_partial. Qed.
+Print Assumptions C31_safety_partial.
+
+(* the same, spelled out per key; additionally the persist flag is still set *)
+Theorem C31_local_copy_kept_partial : forall (nsof : N -> N) (fx : bool) (ops : list op) k,
+  nice nsof fx init ops = true ->
+  let s := fst (run fx init ops) in
+  kmem k (s_acked s) = true -> kmem k (s_back s) = false ->
+  present (snd k) (s_files s) = true /\ persisted (snd k) (s_files s) = true /\ kmem k (s_tasks s) = true.
+Proof. exact safety_partial_explicit. Qed.
+Print Assumptions C31_local_copy_kept_partial.
+
 (* REFUTED as stated (open finding C31-persist-flag-shared): two namespaces upload the same digest;
-   the first write-back clears the single persist flag, a cleanup pass deletes the blob, the
-   second namespace's write-back finds no file and is dropped.  Every step is enabled; in the end
-   (1,0) is acknowledged, not in its backend, not in the cache, has no row, nothing is running. *)
+   the first write-back clears the single persist flag, a cleanup pass deletes the blob, the second
+   namespace's write-back finds no file and is dropped.  Every step is enabled; in the end (1,0) is
+   acknowledged, not in its backend, not in the cache, has no row, and nothing is running. *)
 Theorem C31_multi_namespace_refuted : forall fx, lost fx multi_ns_ops (1, 0) = true.
 Proof. exact multi_ns_lost. Qed.
 Print Assumptions C31_multi_namespace_refuted.
+
+(* REFUTED (open finding C31-forced-cleanup-add-race): ONE namespace; crash between set-persist
+   and Add; maybeDelete's Find sees no row; the client's retry is acknowledged through the
+   conflict path; maybeDelete deletes the persist flag and the blob; the row is dropped. *)
+Theorem C31_forced_cleanup_race_refuted : forall fx, lost fx fc_race_ops (0, 0) = true.
+Proof. exact fc_race_lost. Qed.
+Print Assumptions C31_forced_cleanup_race_refuted.
+
+(* REFUTED at HEAD (open finding C31-stale-entry-lookup): one namespace, no crash, no forced
+   cleanup: a refused deletion attempt on the persisted blob between the executor's map look-up
+   and its entry lock makes the executor drop the task; with the look-up repaired (fx = true) the
+   same history delivers the blob before the local copy goes. *)
+Theorem C31_stale_lookup_refuted : lost false stale_ops (0, 0) = true.
+Proof. exact stale_lost. Qed.
+Print Assumptions C31_stale_lookup_refuted.
+
+(* the three witnesses violate exactly the conditions of the partial theorem *)
+Theorem C31_conditions_needed :
+  nice nsof0 false init multi_ns_ops = false /\ nice nsof0 false init fc_race_ops = false /\
+  nice nsof0 false init stale_ops = false /\ nice nsof0 true init stale_ops = true.
+Proof. exact witnesses_not_nice. Qed.
+Print Assumptions C31_conditions_needed.
+
+(* ---- non-vacuity and the executable oracle *)
+
+(* a history that meets the conditions: outage, failed execution, refused deletions by every path,
+   crash in the middle of an execution, delivery after the restart, forced cleanup that executes
+   the pending write-back itself before deleting *)
+Example C31_nonvacuous_nice :
+  nice nsof0 false init nice_ops = true /\ legal (snd (run false init nice_ops)) = true /\
+  s_back (fst (run false init nice_ops)) = [(0, 0); (0, 1)] /\ s_files (fst (run false init nice_ops)) = [].
+Proof. vm_compute. repeat split; reflexivity. Qed.
+
+(* the trace oracle used on the implementation's observations accepts the benign history ... *)
+Example C31_check_accepts :
+  C31_check benign_ops (snd (run false init benign_ops)) = true.
+Proof. vm_compute. reflexivity. Qed.
+
+(* ... and rejects the three witnesses *)
+Example C31_check_rejects :
+  C31_check (multi_ns_ops ++ [OObs]) (snd (run false init (multi_ns_ops ++ [OObs]))) = false /\
+  C31_check (fc_race_ops ++ [OObs]) (snd (run false init (fc_race_ops ++ [OObs]))) = false /\
+  C31_check (stale_ops ++ [OObs]) (snd (run false init (stale_ops ++ [OObs]))) = false.
+Proof. vm_compute. repeat split; reflexivity. Qed.
